@@ -667,6 +667,18 @@ def main(out_path):
     chunks.append("(* every call of get_certificate_fingerprint in the source tree *)\nDefinition fingerprint_sites : list fp_site :=\n  [" +
                   ";\n   ".join("mk_site %s %s %s" % (coq_str(f), coq_str(q), a) for f, q, a in sites) + "].\n\n")
     chunks.append("(* every module that imports hashlib *)\nDefinition hashlib_users : list str :=\n  [" + "; ".join(coq_str(h) for h in hashers) + "].\n")
+    # which object of the PyOpenSSL connection is "the peer certificate": get_peer_certificate_from_connection must be exactly
+    # `try: return conn.get_peer_certificate() except Exception: return None` (the leaf the peer proved possession of - NOT an entry
+    # of get_peer_cert_chain(), which on the server side holds only the EXTRA certificates the client appended); its only call site,
+    # `peer_cert = get_peer_certificate_from_connection(self.tls_conn)` in server/tls_protocol.py, is pinned verbatim by py2coq_tls.py
+    pm = module("security/pyopenssl_tls.py")
+    fnp = find_function(pm.tree, None, "get_peer_certificate_from_connection")
+    bodyp = [x for x in fnp.body if not (isinstance(x, ast.Expr) and isinstance(x.value, ast.Constant) and isinstance(x.value.value, str))]
+    shape_ok = (len(bodyp) == 1 and ast.unparse(bodyp[0]) == "try:\n    return conn.get_peer_certificate()\nexcept Exception:\n    return None"
+                and [a.arg for a in fnp.args.args] == ["conn"] and not fnp.decorator_list
+                and "get_peer_certificate_from_connection" not in pm.assigned and "get_peer_certificate_from_connection" not in pm.imports)
+    chunks.append("\n(* get_peer_certificate_from_connection(conn) is conn.get_peer_certificate() (None when that raises) *)\n"
+                  "Definition conn_peer_certificate_is_the_leaf : bool := %s.\n" % ("true" if shape_ok else "false"))
     open(out_path, "w").write("".join(chunks))
     print("py2coq_certs: %d functions translated, %d fingerprint call sites" % (len(SPECS), len(sites)))
 
